@@ -311,7 +311,7 @@ def run(tier, seed, rep):
                 (2, 'arg', 0, 0, False), (2, 'group', 0, 1, False)]
     else:
         plan = [(2, w, s, sw0, False) for w in WRAPPERS for s, sw0 in ((0, 0), (0, 1), (1, 0), (1, 1))]
-        plan += [(3, w, s, sw0, True) for w, s, sw0 in (('top', 0, 0), ('body', 1, 0), ('arg', 1, 1), ('group', 0, 1))]
+        plan += [(3, w, s, sw0, True) for w, s, sw0 in (('top', 0, 0), ('body', 1, 1))]
     for depth, w, s, sw0, small in plan:
         outers = sorted(set(_outer_id(n) for n in leaves(1, False)), key=repr)
         if small and depth >= 3:
